@@ -263,3 +263,135 @@ _update_contract(True)
 
 _fixed_retarder('quarter_wave', 'JonesQuarterWaveRetarder', math.pi / 2)
 _fixed_retarder('half_wave', 'JonesHalfWaveRetarder', math.pi)
+
+
+# ---- PolarizedRays.update_intensity / _get_3d_electric_field ------------------------------------------------------------------
+@contract('C17.PolarizedRays.update_intensity', [PR + ':PolarizedRays.update_intensity', PR + ':PolarizedRays._get_3d_electric_field',
+                                                 PR + ':PolarizedRays.get_output_field', 'optiland/rays/polarization_state.py:PolarizationState.__init__'],
+          ['C17'], numeric_only=True)      # bounded: the complex 3x3 products exceed the algebraic back ends' budgets
+def update_intensity(c):
+    """for an arbitrary accumulated (real) polarization matrix and launch direction: the launched field is transverse and of unit
+    norm, a polarized state's intensity is |P E|^2, and the unpolarized intensity is the mean of the intensities of *any* two
+    orthogonal states (ex, ey e^{i d}), (-ey, ex e^{i d})"""
+    PRm = c.mod('optiland.rays.polarized_rays')
+    PS = c.mod('optiland.rays.polarization_state').PolarizationState
+    k0 = c.unit3('L0', 'M0', 'N0')
+    c.require(k0[1] * k0[1] + k0[2] * k0[2] > 0)          # k not along x (documented limitation: raises otherwise)
+    rays = PRm.PolarizedRays(c.arr(0.0), c.arr(0.0), c.arr(0.0), c.arr(k0[0]), c.arr(k0[1]), c.arr(k0[2]), c.arr(1.0), c.arr(0.55))
+    P = [[c.real('p%d%d' % (i, j), -1, 1) for j in range(3)] for i in range(3)]
+    rays.p = c.np.array([P])
+    ex, ey = c.real('ex', -1, 1), c.real('ey', -1, 1)
+    if c.mode == 'num':
+        nrm = math.sqrt(ex * ex + ey * ey) or 1.0
+        ex, ey = ex / nrm, ey / nrm
+        c.require(abs(ex) + abs(ey) > 0)
+    else:
+        c.require(ex * ex + ey * ey == 1)
+    dl = c.real('delta', -3, 3)
+    sa = PS(True, ex, ey, 0.0, dl)
+    sb = PS(True, -ey, ex, 0.0, dl)
+    E = rays._get_3d_electric_field(sa)
+    Ea = [E[0, i] for i in range(3)]
+    dotk = sum(c.val(Ea[i]) * k0[i] for i in range(3))
+    c.ensure_eq('C17.launch_field.transverse_to_the_ray', dotk, 0)
+    n2 = sum(c.val(Ea[i]) * c.val(Ea[i]).conjugate() for i in range(3))
+    c.ensure_eq('C17.launch_field.unit_norm', n2, 1)
+    rays.update_intensity(sa)
+    Ia = c.val(rays.i)
+    want = 0
+    for i in range(3):
+        comp = sum(P[i][j] * c.val(Ea[j]) for j in range(3))
+        want = want + comp * comp.conjugate()
+    c.ensure_eq('C17.update_intensity.polarized_is_squared_norm_of_the_propagated_field', Ia, want)
+    rays.update_intensity(sb)
+    Ib = c.val(rays.i)
+    rays.update_intensity(PS(False))
+    Iu = c.val(rays.i)
+    c.ensure_eq('C17.update_intensity.unpolarized_is_mean_of_any_two_orthogonal_states', 2 * Iu, Ia + Ib)
+
+
+def _runtime(ct, tier, seed):
+    """bounded, whole lenses on the real code: without coatings the polarization trace keeps every ray's intensity for every
+    input state and the propagated field is transverse; with Fresnel coatings the unpolarized intensity is the mean of the
+    intensities of two orthogonal input states (three different orthogonal pairs)"""
+    import random
+    import time
+    import warnings
+    import numpy as np
+    from . import rt
+    from optiland.rays.polarization_state import PolarizationState, create_polarization
+    warnings.simplefilter('ignore')
+    np.seterr(all='ignore')
+    t0 = time.time()
+    rng = random.Random(seed * 41 + 8)
+    clauses, fails, cases, used = {}, [], 0, []
+
+    def note(cid, ok, detail, inputs):
+        c_ = clauses.setdefault(cid, {'paths': 0, 'proved': 0, 'backends': {}, 'failed': [], 'seconds': 0.0, 'bounded': True})
+        c_['paths'] += 1
+        if ok:
+            c_['proved'] += 1
+            c_['backends']['runtime'] = c_['backends'].get('runtime', 0) + 1
+        else:
+            fails.append({'clause': cid, 'draws': inputs, 'note': detail})
+
+    def rng_from(st):
+        r = random.Random()
+        r.setstate(st)
+        return r
+    for i in range(3 if tier == 'quick' else 25):
+        st = rng.getstate()
+        try:
+            L = rt.random_lens(rng_from(st), finite=False)
+            pw = L.primary_wavelength
+        except Exception:
+            continue
+        inputs = {'lens': 'random#%d' % i}
+        states = [create_polarization(t) for t in ('H', 'V', 'L+45', 'L-45', 'RCP', 'LCP')]
+        states.append(PolarizationState(True, rng.uniform(0.1, 1), rng.uniform(-1, 1), rng.uniform(-3, 3), rng.uniform(-3, 3)))
+        Hy = rng.uniform(0, 0.8)
+        ok_lens = True
+        # (1) no coatings
+        for s_ in states + [create_polarization('unpolarized')]:
+            try:
+                L.set_polarization(s_)
+                rays = L.trace(0.0, Hy, pw, 3, 'hexapolar')
+            except Exception:
+                ok_lens = False
+                break
+            good = np.isfinite(rays.x) & np.isfinite(rays.L)
+            if not np.any(good):
+                continue
+            cases += 1
+            note('C17.runtime.uncoated_lens_preserves_intensity_for_every_input_state', bool(np.allclose(rays.i[good], 1.0, rtol=0, atol=1e-9)),
+                 '%s: intensities %s' % (s_, rays.i[good][:4]), inputs)
+            if s_.is_polarized:
+                E1 = rays.get_output_field(rays._get_3d_electric_field(s_))
+                dotk = E1[:, 0] * rays.L + E1[:, 1] * rays.M + E1[:, 2] * rays.N
+                note('C17.runtime.propagated_field_stays_transverse_to_the_ray', bool(np.all(np.abs(dotk[good]) < 1e-9)), '%s' % s_, inputs)
+        if not ok_lens:
+            continue
+        used.append('random#%d' % i)
+        # (2) Fresnel coatings on every refracting surface
+        L.surface_group.set_fresnel_coatings()
+        out = {}
+        for name in ('H', 'V', 'L+45', 'L-45', 'RCP', 'LCP', 'unpolarized'):
+            L.set_polarization(create_polarization(name))
+            rays = L.trace(0.0, Hy, pw, 3, 'hexapolar')
+            out[name] = rays.i.copy()
+        for a, b in (('H', 'V'), ('L+45', 'L-45'), ('RCP', 'LCP')):
+            cases += 1
+            note('C17.runtime.unpolarized_intensity_is_mean_of_two_orthogonal_states',
+                 bool(np.allclose(out['unpolarized'], (out[a] + out[b]) / 2, rtol=1e-9, atol=1e-12, equal_nan=True)),
+                 '%s/%s: %s vs %s' % (a, b, out['unpolarized'][:3], ((out[a] + out[b]) / 2)[:3]), inputs)
+        fin = np.isfinite(out['unpolarized'])
+        note('C17.runtime.coated_lens_never_gains_intensity', bool(np.all(out['unpolarized'][fin] <= 1 + 1e-12)) and all(
+            bool(np.all(out[k][np.isfinite(out[k])] <= 1 + 1e-12)) for k in out), '', inputs)
+    return {'contract': ct.name, 'functions': ct.functions, 'props': ct.props,
+            'symbolic': {'clauses': clauses, 'paths': 0, 'errors': [], 'solver_s': 0.0, 'samples': [], 'wd_assumed': [], 'assumed': []},
+            'numeric': {'accepted': cases, 'rejected': 0, 'failures': fails[:10], 'concolic_agree': 0, 'encoder_mismatches': [],
+                        'samples': [{'lenses': used[:8]}]}, 'wall_s': time.time() - t0}
+
+
+contract('C17.runtime', [PR + ':PolarizedRays.update', PR + ':PolarizedRays.update_intensity', 'optiland/coatings.py:BaseCoatingPolarized.transmit',
+                         'optiland/coatings.py:BaseCoating._compute_aoi', 'optiland/optic.py:Optic.trace'], ['C17'], custom=_runtime)(lambda c: None)
